@@ -8,7 +8,8 @@ def getSInstr (j : Json) : Except String SInstr := do
   let qubits ← getNatList (← field j "qubits")
   let clbits ← getNatList (fieldD j "clbits" (Json.arr #[]))
   let conditioned ← (fieldD j "conditioned" (Json.bool false)).getBool?
-  pure { name, qubits, clbits, conditioned }
+  let param ← getRat (fieldD j "t" (Json.str "0/1"))
+  pure { name, qubits, clbits, conditioned, param }
 
 def c13 (op : String) (j : Json) : Except String Json := do
   match op with
